@@ -33,7 +33,8 @@ def parse(text: str, statement_stream_processor: "StatementStreamProcessor", *, 
     except _error.Error as ex:
         # Inject error location. If this exception is being propagated from a recursive instance, it already has
         # its error location populated, so nothing will happen here.
-        ex.set_error_location_if_unknown(line=pr.current_line_number)
+        if ex.path is None:  # Otherwise it originates from another (nested) definition; the line would be wrong.
+            ex.set_error_location_if_unknown(line=pr.current_line_number)
         raise ex
     except parsimonious.ParseError as ex:
         raise DSDLSyntaxError("Syntax error", line=int(ex.line())) from None  # type: ignore
